@@ -47,6 +47,7 @@ type bindRes struct {
 	NoStd  int       `json:"nostd"`
 	Progs  int       `json:"progs"`
 	Soft   int       `json:"soft"`
+	Detail *bindBad  `json:"detail,omitempty"`
 }
 
 var apiCache = map[string]sonic.API{}
@@ -274,6 +275,9 @@ func bindHandle(in []byte) []byte {
 	}
 	res := bindRes{ID: intOf(c["id"])}
 	od := obsBegin()
+	if c["detail"] == true && od.log == nil {
+		od.log = []string{}
+	}
 	T, J, o, R := rec(c["T"]), rec(c["J"]), rec(c["o"]), rec(c["R"])
 	oldName := sstr(c["old"])
 	hard, soft := R["hard"].(bool), R["soft"].(bool)
@@ -390,6 +394,10 @@ func bindHandle(in []byte) []byte {
 			}
 		}
 	}
+	if c["detail"] == true {
+		d := mk("detail", docText(J, 0), fmt.Sprintf("hard=%v soft=%v", hard, soft), strings.Join(od.log, " ; "))
+		res.Detail = &d
+	}
 	res.Progs = len(programs) - np
 	res.DG = od.sum
 	out, _ := json.Marshal(res)
@@ -439,7 +447,19 @@ func bindMain(args []string) int {
 	workers := fs.Int("workers", runtime.NumCPU(), "workers")
 	envs := fs.String("env", "", "comma separated KEY=VALUE for the workers")
 	digests := fs.String("digests", "", "write per-case observation digests to this file")
+	only := fs.String("only", "", "file with case ids (one per line): replay only these, with observation details")
+	detail := fs.String("detail", "", "ndjson output of the per-case details (with -only)")
 	fs.Parse(args)
+	onlyIDs := map[int]bool{}
+	if *only != "" {
+		b, _ := os.ReadFile(*only)
+		for _, f := range strings.Fields(string(b)) {
+			var n int
+			fmt.Sscan(f, &n)
+			onlyIDs[n] = true
+		}
+	}
+	var details []bindBad
 	t0 := time.Now()
 	var dgs digestFile
 	S := bindSummary{BadBySig: map[string]int{}, OracleSig: map[string]int{}}
@@ -463,8 +483,14 @@ func bindMain(args []string) int {
 			}
 			perr = tlaval.ReadStates(f, func(n int, hdr string, st tlaval.State) error {
 				id++
+				if *only != "" && !onlyIDs[id] {
+					return nil
+				}
 				m := tlaval.ToJSON(st).(map[string]interface{})
 				m["id"], m["seed"] = id, *seed
+				if *only != "" {
+					m["detail"] = true
+				}
 				b, _ := json.Marshal(m)
 				if len(S.Samples) < 3 {
 					S.Samples = append(S.Samples, string(b))
@@ -490,6 +516,10 @@ func bindMain(args []string) int {
 			S.NoStd += r.NoStd
 			S.Soft += r.Soft
 			dgs.add(r.ID, r.DG)
+			if r.Detail != nil {
+				r.Detail.Sig = fmt.Sprint(r.ID)
+				details = append(details, *r.Detail)
+			}
 			for _, b := range r.Oracle {
 				S.Oracle++
 				S.OracleSig[b.Kind+"|"+b.Type+"|"+b.Doc]++
@@ -512,6 +542,14 @@ func bindMain(args []string) int {
 		return 2
 	}
 	dgs.write(*digests)
+	if *detail != "" {
+		f, _ := os.Create(*detail)
+		for _, d := range details {
+			b, _ := json.Marshal(d)
+			f.Write(append(b, '\n'))
+		}
+		f.Close()
+	}
 	S.Wall = time.Since(t0).Seconds()
 	b, _ := json.MarshalIndent(S, "", " ")
 	if *out != "" {
